@@ -71,6 +71,21 @@ Definition add (s : state) (p : particle) : state :=
   mkS (tcfg s) (upd mem1 (sN s) p) (S (sN s)) (sNact s) (sNvar s) (tab s) (nlook s) (tree s || tcfg s)
       (oob s + chk (length mem1) (sN s)).
 
+(* In tree mode reb_tree_add_particle_to_tree refuses a particle whose coordinates are identical to those of a
+   particle already in the tree (error "Cannot add two particles with the same coordinates to the tree"); since
+   950a4b2 reb_simulation_add_local_store then returns before N++.  The id of a particle stands for all its
+   coordinates, so "same coordinates" = same id, and a particle flagged y=NaN never compares equal.
+   The refused particle has been copied into slot N (beyond the live part) and the storage may have grown. *)
+Definition add_refused (s : state) (p : particle) : bool :=
+  tcfg s && existsb (fun q => (pid q =? pid p)%N && negb (pnan q) && negb (pnan p)) (firstn (sN s) (mem s)).
+Definition add_slot_only (s : state) (p : particle) : state :=
+  let alloc := grow_alloc (S (S (sN s))) (length (mem s)) (sN s) in
+  let mem1 := mem s ++ repeat pzero (alloc - length (mem s)) in
+  mkS (tcfg s) (upd mem1 (sN s) p) (sN s) (sNact s) (sNvar s) (tab s) (nlook s) (tree s || tcfg s)
+      (oob s + chk (length mem1) (sN s)).
+Definition add_op (s : state) (p : particle) : state * result :=
+  if add_refused s p then (add_slot_only s p, RFail) else (add s p, RVoid).
+
 (* ------------------------------------------------------------------ reb_search_lookup_table *)
 (* binary search; left/right are C ints (right starts at N_lookup-1 and can reach -1). Returns the index
    stored in the entry when it is below N, NULL otherwise, and the updated oob counter. *)
@@ -206,7 +221,7 @@ Definition remove_all (s : state) : state :=
 
 Definition step (s : state) (o : op) : state * result :=
   match o with
-  | Add p => (add s p, RVoid)
+  | Add p => add_op s p
   | RemoveIdx i k => remove_idx s i k
   | RemoveHash h k => remove_hash s h k
   | SetHash i h => set_hash s i h
@@ -262,7 +277,9 @@ Definition removed_result (a : astate) (i : nat) (keep : bool) : result :=
    carries the hash) *)
 Definition res_ok (a : astate) (o : op) (r : result) : Prop :=
   match o with
-  | Add _ | RemoveAll | SetNActive _ | SetNVar _ => r = RVoid
+  | Add p => if acfg a && existsb (fun q => (pid q =? pid p)%N && negb (pnan q) && negb (pnan p)) (aps a)
+             then r = RFail else r = RVoid
+  | RemoveAll | SetNActive _ | SetNVar _ => r = RVoid
   | RemoveIdx z keep =>
       if ((0 <=? z) && (z <? Z.of_nat (length (aps a))))%Z && negb (refused a keep)
       then r = removed_result a (Z.to_nat z) keep else r = RFail
@@ -279,6 +296,7 @@ Definition res_ok (a : astate) (o : op) (r : result) : Prop :=
 (* post-state given the reported result *)
 Definition aspec (a : astate) (o : op) (r : result) : astate :=
   match o, r with
+  | Add p, RFail => mkA (acfg a) (aps a) (aNact a) (aNvar a) (atree a || acfg a)     (* refused: nothing added *)
   | Add p, _ => mkA (acfg a) (aps a ++ [p]) (aNact a) (aNvar a) (atree a || acfg a)
   | RemoveAll, _ => mkA (acfg a) [] (-1) 0 false
   | SetNActive z, _ => mkA (acfg a) (aps a) z (aNvar a) (atree a)
